@@ -56,6 +56,8 @@ def register(R):
         return {
             'callbacks_invoked_iff_bytes_nonzero': z3.If(nz, B(len(loops) == 1 and loops[0].iterable is c.a_callbacks), B(len(loops) == 0)),
             'each_callback_once_with_the_amount': implies(nz, B(bool(each) or (len(loops) == 1 and not loops[0].alts))),
+            # (every invocation belongs to that one pass over the list: none before it, none after it)
+            'no_callback_invoked_outside_the_single_pass': B(not [e for e in tr if e.kind == 'ext' and e.name == 'progress_cb.()']),
         }
 
     def ipc_iteration(l0, l1, evs):
